@@ -109,6 +109,7 @@ extern int __real_idn2_to_ascii_8z(const char *input, char **output, int flags);
 #define REAL_CONV idn2_to_ascii_8z
 #endif
 /* one conversion: the real libidn2 answer, or the injected environment answer; output in ledger-tracked memory */
+static int g_conv_flags = IDN2_NONTRANSITIONAL;     /* the flags the library passed (idn2 back end); the stand-ins for libidn / idnkit use the default */
 static int conv(const char *in, char **out) {
     g_conversions++;
     if (g_inject_armed) {
@@ -118,7 +119,7 @@ static int conv(const char *in, char **out) {
     }
     char *tmp = NULL;
     int saved = g_track; g_track = 0;
-    int r = REAL_CONV(in, &tmp, IDN2_NONTRANSITIONAL);
+    int r = REAL_CONV(in, &tmp, g_conv_flags);
     g_track = saved;
     if (tmp) {
         size_t l = strlen(tmp) + 1; char *b = __wrap_malloc(l); memcpy(b, tmp, l); *out = b;
@@ -127,7 +128,7 @@ static int conv(const char *in, char **out) {
     return r;
 }
 #ifdef HAVE_LIBIDN2
-int __wrap_idn2_to_ascii_8z(const char *input, char **output, int flags) { (void)flags; return conv(input, output); }
+int __wrap_idn2_to_ascii_8z(const char *input, char **output, int flags) { g_conv_flags = flags; int r = conv(input, output); g_conv_flags = IDN2_NONTRANSITIONAL; return r; }
 #endif
 #ifdef HAVE_LIBIDN
 int idna_to_ascii_lz(const char *input, char **output, int flags) { (void)flags; return conv(input, output); }
